@@ -348,3 +348,4 @@ Proof.
   destruct (lookup n (last_by_table s)), (lookup n (nick_objs s)), (lookup n (p_tables s)),
     (lookup n (p_nicks s)); reflexivity.
 Qed.
+
